@@ -425,8 +425,9 @@ def _run(listener, recycle, idle, ops, faults) -> bool:
                     in_txn = False  # the transaction is over whether or not the ROLLBACK got through
                     nsp = 0
                     sps = []
-                elif op in (EXEC,) and not in_txn:
-                    # whether autobegin had happened before the failing DBAPI call is not specified
+                elif vague or (op == EXEC and not in_txn):
+                    # whether autobegin had happened before the failing DBAPI call is not specified; after a
+                    # failed savepoint statement the model does not know the transaction state either
                     in_txn = conn.get_transaction() is not None
                 else:
                     in_txn = True
@@ -445,9 +446,10 @@ def _run(listener, recycle, idle, ops, faults) -> bool:
                     in_txn = False
                     nsp = 0
                     sps = []
+                    blocked = None  # rollback() was called: the transaction object is gone even if the ROLLBACK failed
                     vague = True  # the server-side transaction state after a failed ROLLBACK is unknown
                 elif op == EXEC:
-                    if not in_txn:
+                    if not in_txn or vague:
                         in_txn = conn.get_transaction() is not None
                 elif op == BEGIN_NESTED:
                     in_txn = True
@@ -491,6 +493,8 @@ def _run(listener, recycle, idle, ops, faults) -> bool:
                 nsp = 0
                 sps = []
                 pending = [[]]
+            elif not conn.invalidated:
+                in_txn = conn.get_transaction() is not None  # not modelled in this state
         else:
             # ---- ordinary operation on a usable (or transparently reconnecting) connection
             expect_raise = (op == BEGIN and in_txn) or (op == DETACH and was_invalid)
@@ -591,7 +595,7 @@ def _run(listener, recycle, idle, ops, faults) -> bool:
                 _fail("%s:stale-dbapi-connection-left-open" % tail, repr([(s.id, s.closed) for s in stale]))
             # Connection.invalidate() / invalidate_pool_on_disconnect=False: "only the current connection that is
             # the subject of the error will actually be invalidated" -- the two idle connections stay in use
-            older = [c for c in srv.connections[:idle] if c not in detached_raws]  # unless the user detached them later
+            older = [c for c in srv.connections[:idle] if c not in detached_raws and c not in stale]  # unless detached / invalidated later
             if any(c.closed for c in older) or not all(c in got for c in older):
                 _fail("%s:idle-connections-invalidated" % tail, repr([(c.id, c.closed) for c in older]))
     else:
@@ -637,9 +641,9 @@ META = {
                   "listeners": LNAMES, "pool": "QueuePool(5) holding 2 idle older connections + the one in use (two-fault histories: no idle connection, "
                   "so that every reconnect has to open a DBAPI connection)"},
         "thorough": {"one fault": "histories <=3 for every listener mode x pool_recycle in {-1, %d}; 4 for every listener mode (pool_recycle -1) and, "
-                                  "without listener / flipping listener, pool_recycle set; 5 over ALPHABETS[1] without listener" % RECYCLE_LARGE,
+                                  "without listener, pool_recycle set; 5 over ALPHABETS[1] without listener" % RECYCLE_LARGE,
                      "two faults": "histories <=3 over ALPHABETS[2] without listener / flipping listener, both pool_recycle values, with 2 and with 0 idle "
-                                   "connections; 3 over ALPHABETS[1]; 4 over ALPHABETS[2] without listener",
+                                   "connections; 3 over ALPHABETS[1]",
                      "three faults": "histories of 3 over ALPHABETS[2] without listener / flipping listener",
                      "fault": "as quick", "listeners": LNAMES, "pool": "as quick"},
     },
@@ -684,7 +688,7 @@ def harnesses(tier: str) -> List[Harness]:
             per_n[1] += _slices(1, 0, listener, recycle, 1, False)
             per_n[2] += _slices(2, 0, listener, recycle, 1, False)
             per_n[3] += _slices(3, 0, listener, recycle, 1, True)
-            if not q and (recycle == -1 or listener in (L_NONE, L_FLIP)):
+            if not q and (recycle == -1 or listener == L_NONE):
                 per_n[4] += _slices(4, 0, listener, recycle, 1, True)
     if q:
         per_n[4] += _slices(4, 1, L_NONE, RECYCLE_LARGE, 1, True)
@@ -698,7 +702,6 @@ def harnesses(tier: str) -> List[Harness]:
             per_n[3] += _slices(3, 1, listener, -1, 2, True)
             per_n[3] += _slices(3, 2, listener, -1, 2, True, idle=0)
             per_n[3] += _slices(3, 2, listener, -1, 3, True)
-        per_n[4] += _slices(4, 2, L_NONE, -1, 2, True)
     return [Harness("disconnect_history_n%d" % n, H_DISC[n], sl, budget_s=150 if q else 800) for n, sl in per_n.items() if sl]
 
 
